@@ -117,6 +117,7 @@ func runC16(h *Harness) {
 	case "provision":
 		resign(0, signer)
 		resign(1, signer)
+		resign(2, signer)
 		cfg.CRLUrls = []string{loc.URL}
 		n = h.NewNode("n1", cfg)
 		err := h.Provision(n)
@@ -137,6 +138,7 @@ func runC16(h *Harness) {
 	case "first-cdp":
 		resign(0, signer)
 		resign(1, signer)
+		resign(2, signer)
 		n = h.NewNode("n1", cfg)
 		if err := h.Provision(n); err != nil {
 			h.Violation("C16.setup", "provision-failed", "%v", err)
@@ -234,6 +236,28 @@ done:
 			}
 			n = m
 		}
+	}
+	// the configuration decides who may sign a configured CRL — also after a restart: provisioning again on the
+	// same work_dir WITHOUT the trusted signer must not let a list signed by that (now unconfigured) signer in
+	if path == "provision" && signer == "config" && verify && !n.Dead {
+		h.Cleanup(n)
+		h.Settle(6 * time.Minute)
+		cfg3 := cfg
+		cfg3.TrustedSigFiles = nil
+		last := len(loc.Versions) - 1
+		loc.Cur, loc.State = last, oGood
+		m := h.NewNodeOn("n1y", cfg3, n.WorkDir)
+		err := h.Provision(m)
+		h.Quiesce()
+		sc["reprovision_without_trust_err"] = err != nil
+		if err == nil {
+			p := loc.Pattern(m)
+			sc["pattern_after-reprovision-without-trust"] = p
+			if p == fmt.Sprintf("v%d", last+1) {
+				h.Violation("C16.verify-unverified-in-force", sigClass()+":reprovision-without-trusted-signer", "cell %s: after a restart without the trusted signer in the configuration, a newly fetched configured CRL signed by that signer came into force (pattern %s)", cell, p)
+			}
+		}
+		n = m
 	}
 	_ = noCDPchain
 	h.R.Sample = map[string]any{"cell": cell, "patterns": sc}
